@@ -118,9 +118,12 @@ class Run(object):
                             % (rid, r["instances"], r["floor"]))
 
   def finish(self):
-    self.check_floors()
     known = load_known().get(self.prop, {})
     viol = [o for o in self.obs if not o.ok]
+    if not any(o.key() not in known for o in viol):
+      # A rule that sees fewer instances than were confirmed by hand must not pass silently;
+      # when a violation was found anyway, the violation is the more useful report.
+      self.check_floors()
     new, kf = [], []
     for o in viol:
       k = o.key()
